@@ -595,6 +595,9 @@ func (m *memFS) Mknod(path string, mode uint32, dev int) error {
 	if err != nil {
 		return err
 	}
+	if !anode.dir {
+		return fmt.Errorf("parent is not a directory")
+	}
 	anode.mu.Lock()
 	defer anode.mu.Unlock()
 	if _, ok := anode.children[base]; ok {
@@ -672,6 +675,9 @@ func (m *memFS) Symlink(oldname, newname string) error {
 	if err != nil {
 		return err
 	}
+	if !anode.dir {
+		return fmt.Errorf("parent is not a directory")
+	}
 	anode.mu.Lock()
 	defer anode.mu.Unlock()
 	if _, ok := anode.children[base]; ok {
@@ -694,6 +700,9 @@ func (m *memFS) link(oldname, newname string, hdr *tar.Header) error {
 	anode, err := m.getNode(parent)
 	if err != nil {
 		return err
+	}
+	if !anode.dir {
+		return fmt.Errorf("parent is not a directory")
 	}
 	target, err := m.getNode(oldname)
 	if err != nil {
@@ -911,6 +920,9 @@ func (f *memFile) ReadAt(p []byte, off int64) (n int, err error) {
 		// This would be a surprise!
 		return 0, fs.ErrInvalid
 	}
+	if off < 0 {
+		return 0, errors.New("negative offset")
+	}
 	if off >= int64(len(f.node.data)) {
 		return 0, io.EOF
 	}
@@ -926,16 +938,21 @@ func (f *memFile) Seek(offset int64, whence int) (int64, error) {
 		// tarfs-backed files don't support Seek.
 		return 0, fs.ErrInvalid
 	}
+	var abs int64
 	switch whence {
 	case io.SeekStart:
-		f.offset = offset
+		abs = offset
 	case io.SeekCurrent:
-		f.offset += offset
+		abs = f.offset + offset
 	case io.SeekEnd:
-		f.offset = int64(len(f.node.data)) + offset
+		abs = int64(len(f.node.data)) + offset
 	default:
 		return 0, errors.New("invalid whence")
 	}
+	if abs < 0 {
+		return 0, errors.New("negative position")
+	}
+	f.offset = abs
 	return f.offset, nil
 }
 
